@@ -145,7 +145,14 @@ func (bq *binaryQuantizer) Delete(ids ...uint64) error {
 func (bq *binaryQuantizer) Fit() error {
 	// Have we already fitted the quantizer or are there enough points to fit it? The short-circuiting
 	// here is important to avoid unnecessary work of counting the items.
-	if bq.threshold != nil || bq.items.Count() < bq.params.TriggerThreshold {
+	if bq.threshold != nil {
+		return nil
+	}
+	itemCount, err := bq.items.CountOrError()
+	if err != nil {
+		return fmt.Errorf("could not count vectors for binary quantizer: %w", err)
+	}
+	if itemCount < bq.params.TriggerThreshold {
 		return nil
 	}
 	// ---------------------------
@@ -154,7 +161,7 @@ func (bq *binaryQuantizer) Fit() error {
 	count := 0
 	var sum []float32
 	startTime := time.Now()
-	err := bq.items.ForEach(func(id uint64, point *binaryQuantizedPoint) error {
+	err = bq.items.ForEach(func(id uint64, point *binaryQuantizedPoint) error {
 		if sum == nil {
 			sum = make([]float32, len(point.Vector))
 		}
